@@ -47,3 +47,32 @@ for i, (nm, fn) in enumerate([('interface', '_dbus_validate_interface'), ('error
     eq('find.' + nm, i + 2, fn, 12, 'quick', role='finder')
     # independent cross-check of the P units (thorough tier): complete unwinding on a 32-byte buffer
     eq('b32.' + nm, i + 2, fn, 32, 'thorough', expect_s=60)
+
+# UTF-8: inner UTF8_GET for-loop (<= 6 iterations) is unwound before DFCC; the scanning loop has the contract.
+for nm, maxlen, tier, exp, to in (('utf8.n64', 64, 'quick', 200, 1500), ('utf8', None, 'thorough', 400, 3000)):
+    UNITS.append(dict(name='C16.' + nm, props=['C16', 'C01', 'C10'], kind='P', route='dfcc', entry='harness',
+                      enforce=['_dbus_string_validate_utf8'], tus=[dict(file=STR, overlay='string_utf8.ovl')],
+                      harness='harness/c16_utf8.c', extra_sources=[ASSERT], defines=(['VERIF_MAXLEN=%d' % maxlen] if maxlen else []),
+                      unwindset_pre=['_dbus_string_validate_utf8.1:7'], timeout=to, expect_s=exp, tier=tier, must_have=LOOPINV,
+                      bounds=({'string_bytes': maxlen, 'note': 'buffer size capped for the quick tier only; loops are NOT unwound; the thorough unit C16.utf8 has no cap'} if maxlen else None),
+                      functions=[dict(name='_dbus_string_validate_utf8', file=STR, status='enforced', contract='exactly Unicode table 3-7 without NUL, both directions')],
+                      assumptions=COMMON_ASSUME))
+
+# ---- signatures (context-free: no ghost-index proof).  B: exact agreement with the reference recogniser.
+SIGTUS = [dict(file=VAL), dict(file=STR), dict(file='dbus/dbus-signature.c')]
+
+
+def sig_eq(name, n, alpha, tier, expect_s):
+    UNITS.append(dict(name='C16.' + name, props=['C16', 'C01'], kind='B', route='plain', entry='harness', tus=SIGTUS,
+                      harness='harness/eq_signature.c', extra_sources=[ASSERT, 'stubs/list_as_stack.c'],
+                      defines=['VERIF_N=%d' % n, 'VERIF_ALPHA=%d' % alpha], unwind=n + 3, timeout=3000, tier=tier, expect_s=expect_s,
+                      trace_is_execution=True, replay_family='validator', replay_fn='_dbus_validate_signature_with_reason',
+                      bounds={'signature_bytes': n, 'alphabet': 'all 256 byte values' if alpha else 'class alphabet {s,v,a,(,),{,},Z}'},
+                      functions=[dict(name='_dbus_validate_signature_with_reason', file=VAL, status='bounded'),
+                                 dict(name='_dbus_list_append/_pop_last/_clear', file='dbus/dbus-list.c', status='assumed', note='LIFO stack contract (stubs/list_as_stack.c)')],
+                      assumptions=['dbus-list behaves as a LIFO stack of integers in the signature validator (stub, not verified)']))
+
+
+sig_eq('sig.full3', 3, 1, 'quick', 60)      # every byte value, <= 3 bytes
+sig_eq('sig.class7', 7, 0, 'quick', 400)    # class alphabet, <= 7 bytes (shortest mis-nesting witness has 7)
+sig_eq('sig.class8', 8, 0, 'thorough', 1200)
